@@ -38,6 +38,10 @@ trait Cur {
     fn physical(&self) -> (Vec<W>, usize);
     /// reads `n` words with the given semantics through a read-only view / clone
     fn view_reads(&self, n: usize, stack: bool, cloned: bool) -> Vec<Option<W>>;
+    /// writes `ws` through a temporary mutable view (`as_mut_view`), which is then dropped; number of accepted words
+    fn mut_view_writes(&mut self, _ws: &[W]) -> Option<usize> {
+        None
+    }
     /// how many reads succeed on a clone drained to the end / writes on a clone filled up
     fn drain_count(&self, stack: bool) -> usize;
     fn fill_count(&self) -> Option<usize>;
@@ -160,6 +164,10 @@ macro_rules! cursor_impl {
                 let cap = self.physical().0.len() + 2;
                 Some(count_writes(self.cloned(), cap))
             }
+            fn mut_view_writes(&mut self, ws: &[W]) -> Option<usize> {
+                let mut v = self.as_mut_view();
+                Some(ws.iter().take_while(|&&w| WriteWords::write(&mut v, w).is_ok()).count())
+            }
             fn reversed<'a>(self: Box<Self>) -> Result<Box<dyn Cur + 'a>, Box<dyn Cur + 'a>> where Self: 'a {
                 Ok(Box::new((*self).into_reversed()))
             }
@@ -223,6 +231,10 @@ macro_rules! rev_impl {
             fn fill_count(&self) -> Option<usize> {
                 let cap = self.physical().0.len() + 2;
                 Some(count_writes(Reverse(self.0.cloned()), cap))
+            }
+            fn mut_view_writes(&mut self, ws: &[W]) -> Option<usize> {
+                let mut v = Reverse(self.0.as_mut_view());
+                Some(ws.iter().take_while(|&&w| WriteWords::write(&mut v, w).is_ok()).count())
             }
             fn reversed<'a>(self: Box<Self>) -> Result<Box<dyn Cur + 'a>, Box<dyn Cur + 'a>> where Self: 'a {
                 Ok(Box::new((*self).into_reversed()))
@@ -464,6 +476,21 @@ fn cursor_script(src: &mut Src, ctx: &mut Ctx) -> CaseResult {
                         vcheck!(r.is_none(), "C17/read_after_end_returned_data", "{}: read after end-of-data returned {:x?}", what, r);
                     }
                     ctx.label("read_after_end");
+                } else {
+                    // writes through a temporary mutable view land in the owner's buffer at the owner's position and
+                    // leave the owner's position alone
+                    let ws: Vec<W> = (0..src.range_usize(1, 3)).map(|_| src.u16()).collect();
+                    if let Some(k) = real.mut_view_writes(&ws) {
+                        let free = model.len() - model.pos;
+                        let exp = ws.len().min(free);
+                        vcheck!(k == exp, "C17/mut_view_writes", "{}: {} of {} writes through as_mut_view() succeeded with {} words free", what, k, ws.len(), free);
+                        for (i, &w) in ws.iter().take(exp).enumerate() {
+                            model.buf[model.pos + i] = w;
+                        }
+                        let (b, p) = real.physical();
+                        vcheck!(b == model.phys_buf() && p == model.phys_pos(), "C17/mut_view_writes", "{}: after writing {:x?} through as_mut_view(): buf {:x?} pos {}, expected {:x?} pos {}", what, ws, b, p, model.phys_buf(), model.phys_pos());
+                        ctx.label("mut_view_writes");
+                    }
                 }
             }
         }
